@@ -734,6 +734,34 @@ def generate(repo):
            f'{JAC}:jacobi_sum_clenshaw_der,jacobi_der_seq {QP}:clenshaw_qbfs_der,clenshaw_q2d_der,compute_z_zprime_Qbfs,compute_z_zprime_Qcon '
            f'{HER}:hermite_He_der_seq,hermite_H_der_seq {LAG}:laguerre_der_seq {ZER}:zernike_nm_der_seq', iter_fact)
 
+    def fill_fact():
+        # a constructor that takes its dtype from a coordinate array (np.full_like(x, v), np.full(shape, v, dtype=x.dtype)) and fills
+        # it with a computed value truncates that value on integer coordinates
+        che, _ = load(repo, 'prysm/polynomials/cheby.py')
+        leg, _ = load(repo, 'prysm/polynomials/legendre.py')
+        fns = [(jac, 'jacobi_der'), (jac, 'jacobi_der_seq'), (her, 'hermite_He_der'), (her, 'hermite_H_der'), (her, 'hermite_He_der_seq'),
+               (her, 'hermite_H_der_seq'), (lag, 'laguerre_der'), (lag, 'laguerre_der_seq'), (zer, 'zernike_nm_der'),
+               (zer, 'zernike_nm_der_seq'), (leg, 'legendre_der'), (leg, 'legendre_der_seq')] + \
+              [(che, f'cheby{k}_der{sfx}') for k in (1, 2, 3, 4) for sfx in ('', '_seq')]
+        for mod, name in fns:
+            fn = get_def(mod, name)
+            coords = {a.arg for a in fn.args.args} & {'x', 'r', 't', 'u', 'usq'}
+            for c in ast.walk(fn):
+                if not isinstance(c, ast.Call):
+                    continue
+                f = ast.unparse(c.func)
+                has_dtype = any(k.arg == 'dtype' for k in c.keywords)
+                if f.endswith('full_like') and c.args and ast.unparse(c.args[0]) in coords and not has_dtype:
+                    fill = c.args[1] if len(c.args) > 1 else next((k.value for k in c.keywords if k.arg == 'fill_value'), None)
+                    if not (isinstance(fill, ast.Constant) and isinstance(fill.value, int)):
+                        return False
+                if f.endswith(('np.full', 'np.array', 'np.asarray')) and any(
+                        k.arg == 'dtype' and ast.unparse(k.value) in {f'{q}.dtype' for q in coords} for k in c.keywords):
+                    return False
+        return True
+    g.fact('derRoutinesDoNotFillCoordinateTypedArraysWithComputedValues',
+           f'{JAC}:jacobi_der,jacobi_der_seq {HER}:hermite_*_der(_seq) {LAG}:laguerre_der(_seq) {ZER}:zernike_nm_der(_seq) cheby.py legendre.py', fill_fact)
+
     return g.finish()
 
 
